@@ -219,6 +219,17 @@ func SetStepPolicy(c *core.Ctx) {
 		}
 		return true
 	}
+	// the interpreter's second view may also step into a small private helper
+	// that several functions share (a sequence factored out of sibling
+	// functions): inlining it is the same code whoever else calls it
+	an.DecideStepPolicy = func(g *ssa.Function) bool {
+		g = originOf(g)
+		if !isHelperName(g) || ix.addrTaken[g] || !core.InModule(g) {
+			return false
+		}
+		cs := ix.callers[g]
+		return len(cs) > 0 && len(cs) <= 8 && len(g.Blocks) <= 24
+	}
 }
 
 // anchorCalls finds the calls of ids in fn. When fn has none, a call of a
